@@ -48,6 +48,9 @@ Rewrite rules (closed list, every application logged with source line):
   N10 (opt-in) `X.iter()|into_iter()[.zip(Y)] .map(|p| E) | .filter_map(|p| O.map(|q| E)) .collect()` -> explicit loop
       pushing into a Vec, inserting pairs into a HashMap (when the `let` is annotated HashMap) or building `Ok(vec)`
       (when every element is `Ok(..)`); zip becomes the stub `vx_zip` carrying Iterator::zip's contract
+  F   suffix focus (`//@from after=/re/ havoc=a: T; b: U`): the statements up to and including the top-level statement
+      matching the anchor are replaced by `self.vx_prefix()` (a stub with no contract: arbitrary effect on self) and
+      `let a: T = vx_any();` for the named locals the suffix reads (arbitrary values) -- an over-approximation of the prefix
   T   `//@extract file=F impl=I fn=f default_file=G default_impl=J`: when impl I does not define f, the trait's default
       body (impl J in G) is extracted instead -- Rust's own method resolution
   A   arm focus (see //@arms)
@@ -1486,6 +1489,7 @@ class Gen:
             loc = find_fn(src, name, kv.get("default_impl"), 0)
         enabled = set(ALL_RULES) - {"N8", "N10"}   # N8 (Option::map) and N10 (collect chains) are opt-in
         maps, sigmaps, arms, cut = [], [], None, None
+        from_after = None
         requires, ensures = [], []
         loops = {}     # n -> dict(invariant=[(name,text)], decreases=[text], ensures=[])
         ats = []       # (regex, where, [lines])
@@ -1520,6 +1524,12 @@ class Gen:
                 if not m:
                     raise VxError("%s:%d: bad cut-directive" % (self.vspec_path, vl))
                 cut = m.group(1)
+                mode = None
+            elif bs.startswith("from "):
+                m = re.match(r"from after=/(.*)/ havoc=(.*)$", bs)
+                if not m:
+                    raise VxError("%s:%d: bad from-directive" % (self.vspec_path, vl))
+                from_after = (m.group(1), [h.strip() for h in m.group(2).split(";") if h.strip()])
                 mode = None
             elif bs == "requires":
                 mode = "requires"
@@ -1663,6 +1673,43 @@ class Gen:
             self.log.append(dict(rule="P", file=rel, line=fn_line, fn=name,
                                  before="function suffix from /%s/ (%d lines)" % (cut, dropped.count("\n")),
                                  after="return self.vx_rest()  -- arbitrary effect on self, arbitrary result"))
+        if from_after:
+            fre, havocs = from_after
+            ms = list(re.finditer(fre, body))
+            if len(ms) != 1:
+                raise VxError("anchor lost: from /%s/ matched %d times in %s::%s" % (fre, len(ms), rel, name))
+            off = body.rfind("\n", 0, ms[0].start()) + 1
+            depth = 0
+            for t in code_toks(tokenize(body[:off])):
+                if t.kind == "punct" and t.text == "{":
+                    depth += 1
+                elif t.kind == "punct" and t.text == "}":
+                    depth -= 1
+            if depth != 1:
+                raise VxError("from anchor /%s/ is not a top-level statement of %s::%s (depth %d)" % (fre, rel, name, depth))
+            # end of the anchor statement
+            st = code_toks(tokenize(body[off:], off))
+            d, end = 0, None
+            for qi, t in enumerate(st):
+                if t.text in ("{", "(", "["):
+                    d += 1
+                elif t.text in ("}", ")", "]"):
+                    d -= 1
+                    if d == 0 and t.text == "}" and not (qi + 1 < len(st) and st[qi + 1].text == "else"):
+                        end = t.end
+                        break
+                elif t.text == ";" and d == 0:
+                    end = t.end
+                    break
+            if end is None:
+                raise VxError("from anchor /%s/: cannot find the end of the statement" % fre)
+            first = body.index("{") + 1
+            dropped = body[first:end]
+            decl = "\n        self.vx_prefix();\n" + "".join("        let %s = vx_any();\n" % h for h in havocs)
+            body = body[:first] + decl + body[end:]
+            self.log.append(dict(rule="F", file=rel, line=fn_line, fn=name,
+                                 before="function prefix up to and including the statement /%s/ (%d lines)" % (fre, dropped.count("\n")),
+                                 after="self.vx_prefix() (arbitrary effect on self) + arbitrary values for: " + "; ".join(havocs)))
         # loop contracts: insert before the loop body's `{`
         inserts = []  # (offset in body, text, [(name, relative line idx)])
         if loops:
